@@ -278,7 +278,26 @@ def gen(ctx):
     ctx.hyp(writer_case(8 if quick else 14), body, max_examples=1500 if quick else 8000)
 
 
-UNITS = [Unit("writers", gen, check, shards=(4, 16))]
+def gen_long(ctx):
+    """sentences with more than a hundred tokens through every writer (export numbering beyond #599, long lines)"""
+    from vlib import shapes
+    for name, tree in shapes.long_sentences():
+        for fmt in FORMATS:
+            if fmt == "brackets" and M.tree_gapdeg(tree["root"]) > 0:
+                continue
+            for opts in ({}, {"export_four": True} if fmt == "export" else {"gf": True}):
+                if fmt in ("tigerxml", "terminals") and opts:
+                    continue
+                case = {"fmt": fmt, "opts": opts, "tree": tree}
+                try:
+                    ctx.run_case(check, case)
+                except Violation as vio:
+                    ctx.record(vio)
+                ctx.count(key=(name, fmt, sorted(opts)), nontrivial=True, classes=["long:" + name, "long:fmt=" + fmt])
+
+
+UNITS = [Unit("writers", gen, check, shards=(4, 16)),
+         Unit("long_sentences", gen_long, check, shards=(1, 1))]
 
 
 # ----------------------------------------------------------------------------------------------- the writers behind the command line
